@@ -44,6 +44,7 @@ def obligations(tier, kf):
     obs.append(Ob('l_order', dict(kf, NLIBS=3), 120).twin())
     obs.append(Ob('l_order', dict(kf, NLIBS=4, U0=0), 900).mutant('link_libs_keep_first'))
     obs.append(Ob('l_order', dict(kf, NLIBS=3), 600).mutant('forward_recurse_shallow'))
+    obs.append(Ob('l_order', dict(kf, NLIBS=3), 600).mutant('fill_options_dedup_forwarded'))
     n, m = (3, 2) if q else (4, 3)
     for a in range(1, n + 1):
         for b in range(1, m + 1):
